@@ -335,7 +335,7 @@ loop:
 				continue
 			}
 			quiet := time.Since(time.Unix(0, lastEvent.Load())) > idle && len(reactor.GetStateTable()) == 0
-			if (sp.Expect > 0 && int(finished.Load()) >= sp.Expect && len(reactor.GetStateTable()) == 0) || (sp.Expect == 0 && quiet) {
+			if (sp.Expect > 0 && int(finished.Load()) >= sp.Expect && quiet) || (sp.Expect == 0 && quiet) {
 				if sp.StopAt != nil && sp.StopAt.Point == "quiescence" || sp.StopAt == nil {
 					res.QuiescentAtMs = time.Since(t0).Milliseconds()
 					res.StateAtQuiet = len(reactor.GetStateTable())
